@@ -93,8 +93,8 @@ def run(ctx):
     removed = set(skip) | set(iex)
     leak = False
     for st in body_start:
-        r = b.reach_between(st, removed_edges=removed, removed_blocks=())
-        if any(e[0] in r for e in back):
+        r = b.edges_between(st, removed_edges=removed, removed_blocks=())
+        if any(e in r for e in back):
             # the back edge is reachable without a skip edge and without exhausting the comparison loop
             leak = True
     ctx.inst("C07/D2", "a step is skipped only when threshold <= 1", bool(skip) is not None and not leak,
@@ -121,11 +121,17 @@ def run(ctx):
             if not c or c[0] != "Eq":
                 continue
             ra, rb = root_ids(b, c[1]), root_ids(b, c[2])
+            stop_at_next = lambda tt: callee_name(tt) == "std::iter::Iterator::next"
+            la, lb = b.trace(c[1], (), stop_at_next), b.trace(c[2], (), stop_at_next)
+            is_elem = {id(ra): bool(la) and all(l.kind == "call" and l.data[0] == ih and l.path[-1:] == (fld(field),) for l in la),
+                       id(rb): bool(lb) and all(l.kind == "call" and l.data[0] == ih and l.path[-1:] == (fld(field),) for l in lb)}
+            not_elem = {id(ra): bool(la) and not any(l.kind == "call" and l.data[0] == ih for l in la),
+                        id(rb): bool(lb) and not any(l.kind == "call" and l.data[0] == ih for l in lb)}
             def is_elem_field(r):
-                return bool(r) and r == frozenset((k, i, p + (fld(field),)) for (k, i, p) in elem_roots)
+                return is_elem[id(r)]
             def is_ref_field(r):
-                # a link taken from the same map: same (kind, id) base, path = map path + [] .1 .field, but not the element itself
-                return bool(r) and all(p[-1:] == (fld(field),) for (k, i, p) in r) and r != frozenset((k, i, p + (fld(field),)) for (k, i, p) in elem_roots) \
+                # a link taken from the same map (same base), but not the element the comparison loop is at
+                return bool(r) and all(p[-1:] == (fld(field),) for (k, i, p) in r) and not_elem[id(r)] \
                     and {(k, i) for (k, i, p) in r} == {(k, i) for (k, i, p) in elem_roots}
             if (is_elem_field(ra) and is_ref_field(rb)) or (is_elem_field(rb) and is_ref_field(ra)):
                 eq_edges.append(e)
@@ -139,8 +145,8 @@ def run(ctx):
         leak = False
         for e0 in isome_edges:
             st = b.succ[e0[0]][e0[1]][0]
-            r = b.reach_between(st, removed_edges=set(eq_edges), removed_blocks={ih})
-            if any(e[0] in r for e in iback):
+            r = b.edges_between(st, removed_edges=set(eq_edges))
+            if any(e in r for e in iback):
                 leak = True
         ctx.inst("C07/D3", "every continuing iteration has passed `%s ==`" % field, not leak,
                  "`==` edges %s; next iteration %s reachable without them" % (eq_edges, "IS" if leak else "is not"), b.at(eq_edges[0][0]))
